@@ -524,6 +524,97 @@ def plain_traversal(fn: ast.AST) -> ast.AST:
     return new
 
 
+def search_loops(fn: ast.AST) -> ast.AST:
+    """A copy of *fn* in which a loop that only searches a sequence for an element is the `any(..)` it computes:
+
+      for X in IT:              if not any(C for X in IT):          flag = False                 flag = any(C for X in IT)
+          if C: break     ==        BODY                            for X in IT:            ==
+      else:                                                             if C:
+          BODY                                                              flag = True; break
+
+    (and the mirror image `flag = True .. flag = False; break`, which is `flag = not any(..)`), and the expression
+    `next((True for X in IT if C), False)` is `any(C for X in IT)`.  C is evaluated for the same elements in the same
+    order; the loop variable is read nowhere outside the loop (so that it stays bound to the hit does not matter)."""
+    new = clone(fn)
+    changed = False
+    loads: Dict[str, int] = {}
+    for n in ast.walk(new):
+        if isinstance(n, ast.Name) and isinstance(n.ctx, ast.Load):
+            loads[n.id] = loads.get(n.id, 0) + 1
+    shadow = {n.id for n in ast.walk(new) if isinstance(n, ast.Name) and isinstance(n.ctx, ast.Store)} | all_params(new)
+
+    def any_of(loop: ast.For, cond: ast.AST) -> ast.AST:
+        gen = ast.GeneratorExp(elt=cond, generators=[ast.comprehension(target=loop.target, iter=loop.iter, ifs=[], is_async=0)])
+        return ast.copy_location(ast.Call(func=ast.Name(id="any", ctx=ast.Load()), args=[gen], keywords=[]), loop)
+
+    def negated(e: ast.AST) -> ast.AST:
+        return e.operand if isinstance(e, ast.UnaryOp) and isinstance(e.op, ast.Not) else ast.copy_location(ast.UnaryOp(op=ast.Not(), operand=e), e)
+
+    def search_shape(loop: ast.AST) -> Optional[ast.If]:
+        """The single `if C: [flag = const;] break` a search loop consists of (its variable is local to the loop)."""
+        if not (isinstance(loop, ast.For) and len(loop.body) == 1 and isinstance(loop.body[0], ast.If) and not loop.body[0].orelse):
+            return None
+        tnames = [x.id for x in ast.walk(loop.target) if isinstance(x, ast.Name)]
+        if not tnames or not all(isinstance(x, (ast.Name, ast.Tuple, ast.List)) for x in ast.walk(loop.target) if not isinstance(x, ast.expr_context)):
+            return None
+        inside: Dict[str, int] = {}
+        for x in ast.walk(loop):
+            if isinstance(x, ast.Name) and isinstance(x.ctx, ast.Load):
+                inside[x.id] = inside.get(x.id, 0) + 1
+        if any(loads.get(t, 0) != inside.get(t, 0) for t in tnames):
+            return None  # the loop variable is read after the loop
+        test = loop.body[0]
+        if any(isinstance(x, (ast.NamedExpr, ast.Await, ast.Yield, ast.YieldFrom)) for x in ast.walk(test.test)):
+            return None
+        if any(isinstance(x, ast.Name) and x.id in tnames for x in ast.walk(loop.iter)):
+            return None
+        return test
+
+    if "any" not in shadow:
+        for node in list(ast.walk(new)):
+            for field in ("body", "orelse", "finalbody"):
+                block = getattr(node, field, None)
+                if not (isinstance(block, list) and block and isinstance(block[0], ast.stmt)):
+                    continue
+                i = 0
+                while i < len(block):
+                    st = block[i]
+                    test = search_shape(st)
+                    if test is None:
+                        i += 1
+                        continue
+                    if st.orelse and len(test.body) == 1 and isinstance(test.body[0], ast.Break):
+                        block[i] = ast.copy_location(ast.If(test=negated(any_of(st, test.test)), body=st.orelse, orelse=[]), st)
+                        changed = True
+                    elif not st.orelse and len(test.body) == 2 and isinstance(test.body[1], ast.Break) and i > 0:
+                        hit, init = test.body[0], block[i - 1]
+                        flag = hit.targets[0].id if isinstance(hit, ast.Assign) and len(hit.targets) == 1 and isinstance(hit.targets[0], ast.Name) else None
+                        init_t = init.targets[0] if isinstance(init, ast.Assign) and len(init.targets) == 1 else init.target if isinstance(init, ast.AnnAssign) and init.value is not None else None
+                        if flag and isinstance(init_t, ast.Name) and init_t.id == flag and isinstance(hit.value, ast.Constant) and isinstance(init.value, ast.Constant) \
+                                and (hit.value.value, init.value.value) in ((True, False), (False, True)) and not _reads_name(test.test, flag) and not _reads_name(st.iter, flag):
+                            found = any_of(st, test.test)
+                            init.value = found if hit.value.value is True else negated(found)
+                            del block[i]
+                            changed = True
+                            continue
+                    i += 1
+        for n in [n for n in ast.walk(new) if isinstance(n, ast.Call) and isinstance(n.func, ast.Name) and n.func.id == "next" and "next" not in shadow]:
+            if len(n.args) == 2 and not n.keywords and is_const(n.args[1], False) and isinstance(n.args[0], ast.GeneratorExp) and is_const(n.args[0].elt, True) and len(n.args[0].generators) == 1 and n.args[0].generators[0].ifs:
+                gen = n.args[0].generators[0]
+                cond = gen.ifs[0] if len(gen.ifs) == 1 else ast.BoolOp(op=ast.And(), values=list(gen.ifs))
+                n.func = ast.copy_location(ast.Name(id="any", ctx=ast.Load()), n.func)
+                n.args = [ast.copy_location(ast.GeneratorExp(elt=cond, generators=[ast.comprehension(target=gen.target, iter=gen.iter, ifs=[], is_async=0)]), n.args[0])]
+                changed = True
+    if not changed:
+        return fn
+    ast.fix_missing_locations(new)
+    _attach_parents(new)
+    new._parent = parent(fn)  # type: ignore[attr-defined]
+    if hasattr(fn, "_normal_of"):
+        new._normal_of = fn._normal_of  # type: ignore[attr-defined]
+    return new
+
+
 def _empty_container(e: Optional[ast.AST]) -> bool:
     return (isinstance(e, (ast.List, ast.Tuple, ast.Set)) and not e.elts) or (isinstance(e, ast.Dict) and not e.keys) or (isinstance(e, ast.Call) and isinstance(e.func, ast.Name) and e.func.id in ("list", "set", "tuple", "dict", "frozenset") and not e.args and not e.keywords)
 
@@ -972,6 +1063,58 @@ def _aware_receiver(fn: ast.AST, c: ast.Call) -> bool:
             if isinstance(tz, ast.Constant) and tz.value is None:
                 return False
     return aware
+
+
+_PADDED_INT = re.compile(r"^(0?>)?0\d+d?$|^0>\d+d?$")
+
+
+def _subsecond(fn: ast.AST, e: Optional[ast.AST]) -> bool:
+    """*e* is computed from the sub-second part of a clock reading: the `.microsecond` field of a datetime, the
+    fraction of an epoch value (`t % 1`, `math.modf(t)`)."""
+    for y in closure(fn, e):
+        for x in ast.walk(y):
+            if isinstance(x, ast.Attribute) and x.attr == "microsecond":
+                return True
+            if isinstance(x, ast.BinOp) and isinstance(x.op, ast.Mod) and isinstance(x.right, ast.Constant) and x.right.value in (1, 1.0) and not isinstance(x.left, ast.Constant):
+                return True
+            if isinstance(x, ast.Call) and (call_name(x) or "").split(".")[-1] == "modf":
+                return True
+    return False
+
+
+def fraction_rendering_problem(fn: ast.AST, z: ast.AST) -> Optional[str]:
+    """Why the fraction of a second in the Z-labelled string *z* is not, at every instant, the digits of the true
+    sub-second part (None: no objection).
+
+    A component of a timestamp assembled by hand (`f'{now:%H:%M:%S}.{ms:03d}Z'`) is right only when the number rendered
+    stays inside the component: the sub-second field cut down (floor: `// 1000`, `int(x / 1000)`, `%f`, a timespec) does,
+    the field *rounded* (`round(..)`, a `.Nf` precision, `+ half` before the cut) reaches the next whole unit in the
+    last half unit of every second and nothing carries it into the seconds (`58.9995` is written `58.1000`: read as RFC
+    3339 that is 58.100, 0.9 s before the true instant and earlier than the stamps written before it).  Digits written
+    without leading zeros (`.5` for 5 ms) denote another instant as well."""
+    how = "reaches the next whole unit in the last half unit of every second and nothing carries it into the seconds: `..:58.9995` is written `..:58.1000Z` (read as RFC 3339: 58.100, 0.9 s before the true instant and earlier than the preceding stamps), so the timestamp is not the true instant and the stream is not non-decreasing"
+    for s in closure(fn, z):
+        for n in ast.walk(s):
+            if isinstance(n, ast.Call) and isinstance(n.func, ast.Name) and n.func.id == "round" and n.args and _subsecond(fn, n.args[0]):
+                return f"`{norm(n)[:60]}` rounds the sub-second field to the nearest unit: the result {how}"
+            if isinstance(n, ast.FormattedValue) and n.format_spec is not None and _subsecond(fn, n.value) and any(isinstance(c, ast.Constant) and isinstance(c.value, str) and re.search(r"\.\d+[fFeEgG%]", c.value) for c in ast.walk(n.format_spec)):
+                return f"the precision format `{txt(n)[:60]}` rounds the sub-second part: the rendered number {how}"
+            if isinstance(n, ast.BinOp) and isinstance(n.op, ast.Mod) and isinstance(n.left, ast.Constant) and isinstance(n.left.value, str) and re.search(r"%[-#0 +]*\d*\.\d+[fFeEgG]", n.left.value) and _subsecond(fn, n.right):
+                return f"the precision format `{txt(n)[:60]}` rounds the sub-second part: the rendered number {how}"
+            if isinstance(n, ast.Call) and isinstance(n.func, ast.Attribute) and n.func.attr == "format" and isinstance(n.func.value, ast.Constant) and isinstance(n.func.value.value, str) and re.search(r"\{[^{}]*:[^{}]*\.\d+[fFeEgG%][^{}]*\}", n.func.value.value) and any(_subsecond(fn, a) for a in list(n.args) + [k.value for k in n.keywords]):
+                return f"the precision format `{txt(n)[:60]}` rounds the sub-second part: the rendered number {how}"
+            # `+ half a unit` before the cut: int(us / 1000 + 0.5), (us + 500) // 1000
+            cut = n.args[0] if isinstance(n, ast.Call) and isinstance(n.func, ast.Name) and n.func.id == "int" and len(n.args) == 1 else n.left if isinstance(n, ast.BinOp) and isinstance(n.op, ast.FloorDiv) else None
+            for c in ([expand(fn, cut)] if cut is not None else []):
+                if isinstance(c, ast.BinOp) and isinstance(c.op, ast.Add):
+                    for a, b in ((c.left, c.right), (c.right, c.left)):
+                        if isinstance(b, ast.Constant) and isinstance(b.value, (int, float)) and not isinstance(b.value, bool) and b.value > 0 and _subsecond(fn, a):
+                            return f"`{norm(n)[:60]}` adds {b.value} to the sub-second field before cutting it (round half up): the result {how}"
+            if isinstance(n, ast.FormattedValue) and isinstance(n.value, (ast.BinOp, ast.Call, ast.Attribute, ast.Name)) and any(isinstance(x, ast.Attribute) and x.attr == "microsecond" for x in ast.walk(expand(fn, n.value))):
+                spec = "".join(str(c.value) for c in (n.format_spec.values if n.format_spec is not None else []) if isinstance(c, ast.Constant)) if n.format_spec is None or all(isinstance(c, ast.Constant) for c in n.format_spec.values) else None
+                if spec is not None and "%" not in spec and not _PADDED_INT.match(spec):
+                    return f"`{txt(n)[:60]}` writes the digits of the sub-second field without leading zeros (format spec {spec!r}): 5 ms is written `.5`, which read as RFC 3339 is half a second"
+    return None
 
 
 def z_shape_problem(fn: ast.AST, z: ast.AST) -> Optional[str]:
@@ -1620,7 +1763,7 @@ class Roles:
         keep = tuple(opts.pop("keep", ())) + self.keep()
         key = (id(fn), keep, tuple(sorted(opts.items())))
         if key not in self._nf:
-            self._nf[key] = normalize(self.repo, self.mod(role), plain_statements(plain_traversal(fn)), keep=keep, **opts)
+            self._nf[key] = normalize(self.repo, self.mod(role), plain_statements(search_loops(plain_traversal(fn))), keep=keep, **opts)
         return self._nf[key]
 
     def is_call(self, c: ast.AST, role: str) -> bool:
@@ -1828,6 +1971,108 @@ def hash_functions(repo: Repo, A: "Roles") -> List[Tuple[object, ast.AST]]:
     return out
 
 
+CONFIG_ATTR = "processor_config"  # the public attribute of a node that holds its configured parameters
+
+
+def runtime_resolvers(repo: Repo) -> List[Tuple[object, ast.AST, Dict[str, str]]]:
+    """(module, function, {role: parameter}) of every repo function that resolves a parameter for a node at run time,
+    found by what it is handed and by whom: code reachable from the methods of the node classes (the classes whose
+    objects own a `processor_config`: a method stores `<receiver>.processor_config`) gives it a node's configuration
+    (`<node>.processor_config`) together with two plain variables (the parameter name and the run context).
+    Roles: config (bound to the configuration), name (the parameter used as the key of the configuration in the
+    resolver), context (the other one), cls (bound to an expression over `<node>.processor`, when there is one)."""
+    node_classes: List[Tuple[object, ast.ClassDef]] = []
+    for mod, _qn, k in repo.all_classes():
+        for meth in [m for m in k.body if isinstance(m, FuncNode)]:
+            recv = _receiver(meth)
+            if recv and any(x == CONFIG_ATTR and plain for x, _st, plain in instance_writes(meth, recv)):
+                node_classes.append((mod, k))
+                break
+    fam: Dict[int, Tuple[object, ast.ClassDef]] = {}
+    for mod, k in node_classes:
+        fam[id(k)] = (mod, k)
+        for sm, sc in repo.subclasses(k):
+            fam[id(sc)] = (sm, sc)
+    roots = [(m, f) for m, k in fam.values() for f in k.body if isinstance(f, FuncNode)]
+    homes = {m.rel.rsplit("/", 2)[0] for m, _k in fam.values()}  # the package the node classes live in
+    clo = repo.call_graph_closure(roots, stop=lambda m, n: not any(m.rel.startswith(h + "/") for h in homes))
+    out: List[Tuple[object, ast.AST, Dict[str, str]]] = []
+    for mod, fn, _path in sorted(clo.values(), key=lambda t: (t[0].rel, getattr(t[1], "lineno", 0))):
+        if not isinstance(fn, FuncNode):
+            continue
+        for c in calls_in(fn, include_nested=True):
+            args = list(c.args) + [k.value for k in c.keywords]
+            cfg = [a for a in args if isinstance(a, ast.Attribute) and a.attr == CONFIG_ATTR and isinstance(a.value, ast.Name)]
+            if len(cfg) != 1 or sum(1 for a in args if isinstance(a, ast.Name) and a.id != cfg[0].value.id) < 2:
+                continue
+            owner = cfg[0].value.id
+            try:
+                targets = [(m, f) for m, f in repo.resolve_call(mod, c) if isinstance(f, ast.FunctionDef) and not isinstance(parent(f), ast.ClassDef)]
+            except AnalysisError:
+                raise
+            except Exception:
+                targets = []
+            for m, f in targets:
+                if any(f is o[1] for o in out):
+                    continue
+                roles: Dict[str, str] = {}
+                passed = []
+                for q, a in bind_args(c, f).items():
+                    if a is cfg[0]:
+                        roles["config"] = q
+                    elif isinstance(a, ast.Name) and a.id != owner:
+                        passed.append(q)
+                    elif re.search(rf"\b{re.escape(owner)}\.processor\b", ast.unparse(a)):
+                        roles["cls"] = q
+                if "config" not in roles or len(passed) != 2:
+                    continue
+                keyed = [q for q in passed if any(
+                    (isinstance(x, ast.Subscript) and dotted_name(x.value) == roles["config"] and dotted_name(x.slice) == q)
+                    or (isinstance(x, ast.Compare) and dotted_name(x.left) == q and any(_root_name(k.func.value if isinstance(k, ast.Call) and isinstance(k.func, ast.Attribute) else k) == roles["config"] for k in x.comparators))
+                    or (isinstance(x, ast.Call) and isinstance(x.func, ast.Attribute) and dotted_name(x.func.value) == roles["config"] and any(dotted_name(y) == q for y in x.args))
+                    for x in ast.walk(f))]
+                if len(keyed) != 1:
+                    continue
+                roles["name"] = keyed[0]
+                roles["context"] = next(q for q in passed if q != keyed[0])
+                out.append((m, f, roles))
+    return out
+
+
+def canonical_resolver(repo: Repo, mod, fn: ast.AST, roles: Dict[str, str]) -> ast.AST:
+    """Normal form of the run-time resolver *fn* with its parameters (and the helper that looks a name up in the
+    processor's declared parameter table) spelled the way the shared chain extraction (sa/props/_chains.py) reads them."""
+    # the default look-up: a repo function applied to the parameter name (and the processor class) - kept as a call
+    helpers: Dict[str, str] = {}
+    for c in calls_in(fn):
+        args = list(c.args) + [k.value for k in c.keywords]
+        if isinstance(c.func, (ast.Name, ast.Attribute)) and any(dotted_name(a) == roles["name"] for a in args) and not any(dotted_name(a) in (roles["config"], roles["context"]) for a in args):
+            try:
+                t = repo.resolve_call(mod, c)
+            except Exception:
+                t = []
+            if len(t) == 1 and isinstance(t[0][1], ast.FunctionDef):
+                helpers[dotted_name(c.func) or ""] = t[0][1].name
+    nf = normalize(repo, mod, search_loops(fn), keep=tuple(sorted(set(helpers.values()) | {"_default_for"})))
+    rename = {roles["config"]: "processor_config", roles["name"]: "name", roles["context"]: "context"}
+    if "cls" in roles:
+        rename[roles["cls"]] = "processor_cls"
+    taken = {x.id for x in ast.walk(nf) if isinstance(x, ast.Name)} | all_params(nf)
+    if any(new != old and new in taken for old, new in rename.items()):
+        return nf  # a canonical name is used for something else: read the function as it is spelled
+    out = clone(nf)
+    for x in ast.walk(out):
+        if isinstance(x, ast.Name) and x.id in rename:
+            x.id = rename[x.id]
+        elif isinstance(x, ast.arg) and x.arg in rename:
+            x.arg = rename[x.arg]
+        if isinstance(x, ast.Call) and (dotted_name(x.func) or "") in helpers and not (dotted_name(x.func) or "").endswith("_default_for"):
+            x.func = ast.copy_location(ast.Name(id="_default_for", ctx=ast.Load()), x.func)
+    ast.fix_missing_locations(out)
+    _attach_parents(out)
+    return out
+
+
 def run(repo: Repo, R: Report) -> None:
     R.assume(
         "datetime.now(timezone.utc) / utcnow() read the true UTC instant; time.time() does not step backwards within one node (wall-clock steps are outside the quantifier)",
@@ -1839,7 +2084,7 @@ def run(repo: Repo, R: Report) -> None:
 
     # ------------------------------------------------------------------ D1 UTC
     r_utc = R.rule("C07-D1-utc-timestamps", "every string labelled with the UTC designator Z is produced from a UTC-anchored clock read; SER timing and driver timestamps come from such producers", 4)
-    r_shape = R.rule("C07-D1-rfc3339-shape", "the text that receives the designator Z is a complete RFC 3339 date-time at every instant: positional cuts are applied only to fixed-width renderings (isoformat with an explicit timespec of seconds or finer, strftime), never to isoformat() whose width depends on the microsecond field; no offset besides the Z", 2)
+    r_shape = R.rule("C07-D1-rfc3339-shape", "the text that receives the designator Z is a complete RFC 3339 date-time at every instant: positional cuts are applied only to fixed-width renderings (isoformat with an explicit timespec of seconds or finer, strftime), never to isoformat() whose width depends on the microsecond field; no offset besides the Z; a fraction of a second assembled by hand is the sub-second field cut down (floor) and zero-padded, never rounded (a rounded field reaches the next whole unit without a carry into the seconds)", 2)
     producers: Dict[str, str] = {}
     n_z = 0
     for rel in TS_FILES:
@@ -1857,7 +2102,7 @@ def run(repo: Repo, R: Report) -> None:
             own = [z for z in z_labelled(fn) if next((a for a in ancestors(z) if isinstance(a, FuncNode)), None) is fn]
             for z in own:
                 n_z += 1
-                why = z_shape_problem(fn, z)
+                why = z_shape_problem(fn, z) or fraction_rendering_problem(fn, z)
                 R.check(why is None, r_shape, rel, qn, norm(stmt_of(z))[:110], why or "", z.lineno)
                 # the clock may be read in this expression or in a local it uses
                 scope: List[ast.AST] = closure(fn, z)
@@ -2135,6 +2380,48 @@ def run(repo: Repo, R: Report) -> None:
             ok = ok and unpack_of(v, "resolve", pos)
         R.check(ok, r_prov, ORCH, EXECUTE, f"SER ({status_of(c)}): processor.parameters / parameter_sources = the resolved (values, sources) pair", "processor.parameters / parameter_sources are not the (values, sources) pair reconstructed for this node", c.lineno)
 
+    # the other side of the interface: the chain the nodes resolve their parameters with at run time
+    r_agree = R.rule("C07-D2-runtime-chain-agreement", "the channel the SER names is the channel the node took the value from: the function the nodes resolve a parameter with at run time (handed the node's processor_config, the parameter name and the context) picks the configured value whenever the name is a key of the configuration (whatever the value stored there), else the context value whenever the context has the key, else the declared default whenever there is one, else raises - the same tests, in the same order, under which the SER writes `node`, `context`, `default`", 4)
+    from ._chains import extract_chain
+
+    node_stores = [s for _i, _ln, lab, s in order if lab == "node"]
+    ser_node_plain = bool(node_stores)
+    for s in node_stores:
+        ids = g_rp.nodes_for(s)
+        conds = dominating_conditions(g_rp, rp, ids[0]) if ids else [ast.Constant(value="?")]
+        lp = next((a for a in ancestors(s) if isinstance(a, ast.For)), None)
+        # the loop ranges over the mapping read from entry 'parameters' of this node's definition (however the local that
+        # names it is bound: every expression that flows into the iterable is looked at)
+        flows = closure(rp, lp.iter) if lp is not None else []
+        over_declared = any(is_const(x, "parameters") for y in flows for x in ast.walk(y)) and any(isinstance(x, ast.Name) and x.id == rpp[1] for y in flows for x in ast.walk(y))
+        plain = not conds and over_declared
+        ser_node_plain = ser_node_plain and plain
+        R.check(plain, r_agree, RREL, RPQ, "node label [every key of the node's declared parameters, whatever its value]", f"the node step of the SER is narrowed ({' and '.join(txt(c) for c in conds)[:80] or 'its domain is not the keys of the declared parameters of this node'}): the run-time chain takes the configured value for every key that is present in the node's configuration", s.lineno)
+    resolvers = runtime_resolvers(repo)
+    if not resolvers:
+        raise AnalysisError("no repo function is handed a node's `processor_config`, a parameter name and the run context by a method (the run-time side of parameter resolution was not found)")
+    want_chain = [("config", "config"), ("context", "context"), ("default", "default")]
+    ser_word = {"config": "node", "context": "context", "default": "default"}
+    ser_test = {"config": "the name is a key of the node's declared parameters (whatever the value)", "context": "the key is in the pre-node context (whatever the value)", "default": "the processor declares a default for the name"}
+    for xm, xf, xroles in resolvers:
+        xq = qualname_of(xf)
+        chain = extract_chain(canonical_resolver(repo, xm, xf, xroles))
+        steps = [c for c in chain if c[0] != "always"]
+        for i, (guard, result) in enumerate(want_chain):
+            got = steps[i] if i < len(steps) else ("<missing>", "<missing>")
+            if got == (guard, result):
+                R.ok(r_agree, xm.rel, xq, f"step {i + 1}: {guard} value exactly when present = SER label `{ser_word[guard]}`", "", xf.lineno)
+                continue
+            if got[1] == result and got[0].rstrip("?~") == guard:
+                why = f"the run-time chain takes the {guard} value under a test that reads the {guard} channel but is not its plain presence test, while the SER writes `{ser_word[guard]}` exactly when {ser_test[guard]}: for a parameter that is present but rejected by the run-time test (e.g. configured as null / a falsy value) the node receives the value of a later channel (or fails with KeyError) and the SER still reports the {guard} value with source `{ser_word[guard]}`"
+            else:
+                why = f"step {i + 1} of the run-time chain is {got} where the SER assumes ({guard!r}, {result!r}): the order or the test of the channels differs, so parameter_sources names a channel the value did not come from"
+            channel_param = xroles.get(guard)  # config / context: the parameter of the resolver that holds the channel
+            line = next((n.lineno for n in walk_no_nested(xf) if isinstance(n, (ast.If, ast.IfExp)) and channel_param and _reads_name(expand(xf, n.test), channel_param)), xf.lineno)
+            R.violation(r_agree, xm.rel, xq, f"first-match chain {chain}"[:110], why, line)
+        tail = [c for c in chain if c[0] == "always"]
+        R.check(bool(tail) and tail[-1][1].startswith("raise:") and len(steps) == len(want_chain), r_agree, xm.rel, xq, "no channel has the name: raises (the SER has no entry for it)", f"after the three channels the run-time chain does not raise ({chain[len(want_chain):]}): a parameter the SER has no entry for is passed to the processor", xf.lineno)
+
     # ------------------------------------------------------------------ D3 checks
     r_chk = R.rule("C07-D3-check-polarity", "built-in checks report PASS exactly when the condition holds, on the right inputs (pre snapshot / input data, post snapshot taken after the node ran / output data)", 10)
     pre = A.nf("pre_checks", loops=True)
@@ -2286,8 +2573,21 @@ def run(repo: Repo, R: Report) -> None:
         ok = len(calls) == 1
         if ok:
             b = bind_args(calls[0], tce)
-            ex_t = ast.unparse(expand(fn, b.get(EXP_P))) if b.get(EXP_P) is not None else ""
-            ok = is_const(b.get(tp[0]), code) and dotted_name(b.get(VAL_P)) == fp[2] and f"'{getter}'" in ex_t.replace('"', "'") and f"{fp[0]}.processor" in ex_t and "_data_type" not in ex_t.replace(getter, "")
+            # the declared type is the result of calling the attribute <getter> of this node's processor (read directly or
+            # through getattr with whatever stand-in for processors that declare nothing): the attributes of the processor
+            # read on the way are exactly {<getter>} - names of locals, stand-ins and helpers do not matter
+            ex_e = expand(fn, b.get(EXP_P)) if b.get(EXP_P) is not None else None
+            owner = f"{fp[0]}.processor"
+            read: Set[str] = set()
+            for x in (ast.walk(ex_e) if ex_e is not None else []):
+                if isinstance(x, ast.Attribute) and txt(x.value) == owner:
+                    read.add(x.attr)
+                elif isinstance(x, ast.Call) and call_name(x) == "getattr" and len(x.args) >= 2 and txt(x.args[0]) == owner:
+                    read.add(x.args[1].value if isinstance(x.args[1], ast.Constant) and isinstance(x.args[1].value, str) else "<computed>")
+            called = [x for x in (ast.walk(ex_e) if ex_e is not None else []) if isinstance(x, ast.Call) and not x.args and not x.keywords and (
+                (isinstance(x.func, ast.Attribute) and x.func.attr == getter and txt(x.func.value) == owner)
+                or (isinstance(x.func, ast.Call) and call_name(x.func) == "getattr" and len(x.func.args) >= 2 and txt(x.func.args[0]) == owner and is_const(x.func.args[1], getter)))]
+            ok = is_const(b.get(tp[0]), code) and dotted_name(b.get(VAL_P)) == fp[2] and read == {getter} and bool(called)
         R.check(ok, r_chk, ORCH, qualname_of(fn), f"{code}: processor.{getter}() against data", f"{code} does not test the data against the processor's declared {getter}", fn.lineno)
     # call sites: pre with pre snapshot and data before the node; post with a snapshot taken after the node ran and the output data
     for c in calls_in(ex):
